@@ -70,6 +70,8 @@ pub mod verif_hooks;
 pub mod verif_hooks_c12;
 #[cfg(csl_verif)]
 pub mod verif_oracle;
+#[cfg(csl_verif)]
+pub mod verif_hooks_c13;
 
 pub use serialization::*;
 
